@@ -36,7 +36,7 @@ RULE = ('noise-free images I(x,y)=f(elliptical radius), f in {Sersic n 0.7-4, Ga
         'class polar = EllipseGeometry.to_polar/radius on random + degenerate points (centre, axes, integer pixels). '
         'non-trivial = fit with >=5 isophotes judged against truth or fixed values / >=3 converged single fits / '
         '>=3 samples / >=500 to_polar points; distinct by digest of image + start geometry + keywords')
-CLASSES = gen.FIT_CLASSES + ['polar', 'sample', 'single']
+CLASSES = ['repr', 'sample', 'polar', 'degenerate', 'single'] + gen.FIT_CLASSES
 MUST_REACH = ['photutils.isophote.ellipse:Ellipse.fit_image',
               'photutils.isophote.ellipse:Ellipse.fit_isophote',
               'photutils.isophote.fitter:EllipseFitter.fit',
@@ -62,7 +62,7 @@ MUST_REACH = ['photutils.isophote.ellipse:Ellipse.fit_image',
               'photutils.isophote.model:build_ellipse_model']
 ANCHOR_FILES = ['isophote/ellipse.py', 'isophote/fitter.py', 'isophote/sample.py', 'isophote/geometry.py',
                 'isophote/harmonics.py', 'isophote/integrator.py', 'isophote/isophote.py', 'isophote/model.py']
-MIN_NONTRIVIAL = {'quick': 80, 'thorough': 1500}
+MIN_NONTRIVIAL = {'quick': 50, 'thorough': 1500}
 ASSUMPTIONS = ['numpy/scipy (map_coordinates order=1, gammaincinv, lstsq) are trusted',
                'truth = point-sampled analytic law at pixel centres (integer coordinates), the convention of the '
                'bilinear integrator',
@@ -87,12 +87,15 @@ MODEL_SHIFT = 0.15      # px, least-squares registration offset of model vs imag
 MODEL_BIAS = 0.08       # mean relative residual (measured max 0.032)
 POLAR_TOL = 1e-12       # scalar vs array form
 USABLE_MIN = 0.70
+MAG_CEN, MAG_EPS, MAG_INT = 1e-3, 1e-4, 1e-6   # fit_isophote on a rescaled image vs the original (measured max
+                                            # 6.4e-6 px, 5.1e-7, 1.2e-8; float32 pixels: 1.1e-6 px, 1.3e-8, 1.1e-8)
+BIG_VALUES = 1.0e7
 
 
 def plan(tier):
     if tier == 'thorough':
-        return dict(shards=16, cases=20 * 18, timeout=3000, budget_s=840)
-    return dict(shards=8, cases=40, timeout=900, budget_s=75)
+        return dict(shards=16, cases=17 * 22, timeout=3000, budget_s=840)
+    return dict(shards=8, cases=42, timeout=900, budget_s=70)
 
 
 # ================================================================================================
@@ -137,6 +140,8 @@ def selftest():
 # ================================================================================================
 def _crc(a):
     import zlib
+    if isinstance(a, np.ma.MaskedArray):
+        return (_crc(np.ma.getdata(a)), zlib.crc32(np.ascontiguousarray(np.ma.getmaskarray(a)).tobytes()))
     return zlib.crc32(np.ascontiguousarray(a).tobytes()), a.shape, str(a.dtype)
 
 
@@ -274,7 +279,7 @@ def _fixed_exact(case, spec, isos, init, mech):
 # sampling invariants of one isophote / sample
 # ================================================================================================
 def _sample_checks(case, img, sample, mode, mech, spec=None, judge_values=True, astep=None, linear=False,
-                   other_smas=()):
+                   other_smas=(), val_rtol=1e-10):
     """Invariants of an extracted EllipseSample.  `other_smas`: semimajor axes of the geometries this
     sample's geometry may have been inherited from (neighbouring isophotes / the geometry object)."""
     g = sample.geometry
@@ -327,7 +332,7 @@ def _sample_checks(case, img, sample, mode, mech, spec=None, judge_values=True, 
         return
     inside = (xs >= 0) & (xs <= nx - 1) & (ys >= 0) & (ys <= ny - 1)
     if mode == 'bilinear':
-        case.close(inten[inside], _bilinear(img, xs[inside], ys[inside]), 'sample_value_bilinear', rtol=1e-10,
+        case.close(inten[inside], _bilinear(img, xs[inside], ys[inside]), 'sample_value_bilinear', rtol=val_rtol,
                    atol=1e-300, mech=mech)
     elif mode == 'nearest_neighbor':
         # the value must be one of the four pixels around the sample point
@@ -618,11 +623,35 @@ def _model(case, spec, img, isolist, mech, recover_ok):
 def _fit_case(case):
     from photutils.isophote import Ellipse, EllipseGeometry
     spec = gen.draw(case.rng, case.cls, case.tier)
-    img = gen.image_of(spec)
-    snap = _crc(img)
+    axes = spec['axes']
     init = spec['init']
     kw = dict(spec['fit_kw'])
     mode = kw.get('integrmode', 'bilinear')
+    # generic axis: dtype / layout / container of the image (monitors use `img`, a float64 C array holding
+    # exactly the values the library sees in `lib_img`)
+    kind = axes['image_repr']
+    if kind and not gen.int_repr_ok(spec, kind, kw['maxsma']):
+        kind = 'float32'
+    lib_img, img, sc = gen.apply_repr(gen.image_of(spec), kind, spec, axes['peak_frac'])
+    spec['law_scale'] = sc
+    snap = _crc(lib_img)
+    val_rtol = 5e-6 if kind == 'float32' else 1e-10
+    # generic axis: call forms of the geometry arguments
+    if axes['pa_form'] == 'negative':
+        init['pa'] = init['pa'] - math.pi
+    elif axes['pa_form'] == 'above_pi':
+        init['pa'] = init['pa'] + math.pi
+    g_pa = np.float64(init['pa']) if axes['pa_form'] == 'numpy_float64' else init['pa']
+    g_x0, g_y0 = (np.float64(init['x0']), np.float64(init['y0'])) if axes['centre_np'] else (init['x0'], init['y0'])
+    g_sma = int(init['sma']) if axes['sma_int'] else init['sma']
+    if axes['sma_int'] and 'sma0' in kw:
+        kw['sma0'] = int(kw['sma0'])
+    for name, on in (('axis_plain', axes['plain']), ('axis_frame_elongated', axes['frame'] is not None),
+                     ('axis_magnitude', axes['magnitude'] is not None), ('axis_image_repr_' + str(kind), kind),
+                     ('axis_pa_form_' + str(axes['pa_form']), axes['pa_form']), ('axis_centre_numpy', axes['centre_np']),
+                     ('axis_sma_python_int', axes['sma_int'])):
+        if on:
+            case.note(name, 1)
     gkw = {}
     fixkw = {k: True for k, v in spec['fix'].items() if v}
     if spec['flags_via'] == 'geometry':
@@ -635,7 +664,9 @@ def _fit_case(case):
                        eps=round(spec['eps'], 4), pa_deg=round(math.degrees(spec['pa']), 4), law=spec['kind'],
                        n=spec['n'] and round(spec['n'], 2), scale=round(spec['scale'], 2),
                        init={k: round(v, 4) for k, v in init.items()}, fit_kw=kw, geometry_kw=gkw,
-                       fixed_at_truth=spec['fixed_at_truth'], regime=spec.get('regime'))
+                       fixed_at_truth=spec['fixed_at_truth'], regime=spec.get('regime'), amp=spec['amp'],
+                       axes={k: v for k, v in axes.items() if v and k != 'peak_frac'}, image_repr=kind,
+                       subclass=spec['subclass'])
     case.digest = core.arr_digest(img, np.array([init[k] for k in ('x0', 'y0', 'sma', 'eps', 'pa')])) \
         + core.digest([kw, gkw])
     mech = dict(integrmode=mode, growth='linear' if spec['linear'] else 'geometric', fix=_fix_name(spec['fix']))
@@ -643,10 +674,19 @@ def _fit_case(case):
         # structural fact: the pixel step was (also) stored in the geometry object (EllipseGeometry.astep)
         mech['astep_px_in_geometry'] = spec['linear_via'] == 'geometry'
 
-    geom = EllipseGeometry(init['x0'], init['y0'], init['sma'], init['eps'], init['pa'], **gkw)
-    ell = Ellipse(img, geom)
+    if kind:
+        mech['image_repr'] = kind
+    if float(np.max(img)) >= BIG_VALUES:
+        # structural fact: pixel values so large that scipy.leastsq's forward-difference step (1.5e-8 on the
+        # unit start amplitudes of harmonics.py) is below their rounding granularity
+        mech['big_values'] = True
+        case.note('axis_magnitude_big_values', 1)
+    if axes['pa_form'] in ('negative', 'above_pi'):
+        mech['pa_form'] = axes['pa_form']
+    geom = EllipseGeometry(g_x0, g_y0, g_sma, init['eps'], g_pa, **gkw)
+    ell = Ellipse(lib_img, geom)
     ok, isolist = _lib(case, dict(mech, op='fit_image'), ell.fit_image, **kw)
-    case.check(_crc(img) == snap, 'image_unchanged', dict(mech, op='fit_image'))
+    case.check(_crc(lib_img) == snap, 'image_unchanged', dict(mech, op='fit_image'))
     if not ok:
         return
     if len(isolist) == 0:
@@ -689,10 +729,10 @@ def _fit_case(case):
                        judge_values=(mode in ('bilinear', 'nearest_neighbor')) or
                                     (not off_truth and iso.stop_code == 0 and iso.sma >= 4.0),
                        astep=kw['step'], linear=spec['linear'],
-                       other_smas=[o.sma for o in nonc if o is not iso] + [init['sma']])
+                       other_smas=[o.sma for o in nonc if o is not iso] + [init['sma']], val_rtol=val_rtol)
     _model(case, spec, img, isolist, mech,
            recover_ok=not off_truth and mode != 'nearest_neighbor' and not spec.get('no_recovery'))
-    case.check(_crc(img) == snap, 'image_unchanged', dict(mech, op='build_ellipse_model'))
+    case.check(_crc(lib_img) == snap, 'image_unchanged', dict(mech, op='build_ellipse_model'))
     case.nontrivial = (nrec >= 5) or (nfix >= 5)
 
 
@@ -933,9 +973,310 @@ def _polar_case(case):
     case.nontrivial = True
 
 
+# ================================================================================================
+# class: representation / magnitude independence of the cheap entry points
+# ================================================================================================
+def _iso_tuple(iso):
+    return [float(v) if v is not None else float('nan') for v in
+            (iso.x0, iso.y0, iso.eps, iso.pa, iso.intens, iso.grad, iso.stop_code, iso.niter, iso.ndata, iso.nflag)]
+
+
+def _repr_case(case):
+    from photutils.isophote import Ellipse, EllipseGeometry, EllipseSample
+    rng = case.rng
+    spec = gen.draw_truth(rng, 'repr', case.tier)
+    # shallow profile in a square ~105 px frame: bright counts out to sma ~ 35 (integer dtypes), large sectors
+    n_ = int(rng.integers(101, 116))
+    spec.update(shape=[n_, n_], x0=float(n_ / 2 + rng.uniform(-6, 6)), y0=float(n_ / 2 + rng.uniform(-6, 6)),
+                eps=float(rng.uniform(0.05, 0.6)), law_scale=1.0)
+    if rng.random() < 0.5:
+        spec.update(kind='gauss', n=None, scale=float(rng.uniform(0.30, 0.45) * n_))
+    else:
+        spec.update(kind='sersic', n=float(rng.uniform(0.7, 1.6)), scale=float(rng.uniform(0.30, 0.45) * n_))
+    spec['amp'] = float(10.0 ** rng.uniform(0.0, 3.0))
+    spec['background'] = float(rng.choice([0.0, spec['amp'] * rng.uniform(0.01, 0.3)]))
+    kind = gen.REPRS_ALL[int(rng.integers(0, len(gen.REPRS_ALL)))]
+    mag = [('pow2', float(2.0 ** int(rng.integers(-60, 41)))), ('decimal', float(10.0 ** rng.uniform(-20.0, 10.0)))][
+        int(rng.integers(0, 2))]
+    img0 = gen.image_of(spec)
+    lib_img, img, sc = gen.apply_repr(img0, kind, spec, float(rng.uniform(0.5, 1.0)), far_radius=0.62 * n_)
+    snap = _crc(lib_img)
+    masked = kind.startswith('masked')
+    exact = kind != 'float32'
+    case.params = dict(shape=spec['shape'], x0=round(spec['x0'], 3), y0=round(spec['y0'], 3), eps=round(spec['eps'], 4),
+                       pa_deg=round(math.degrees(spec['pa']), 4), law=spec['kind'], scale=round(spec['scale'], 2),
+                       image_repr=kind, magnitude=list(mag), runs=[])
+    case.note('axis_image_repr_' + kind, 1)
+    case.note('axis_magnitude_' + mag[0], 1)
+    dig = [core.arr_digest(img), kind, mag[1]]
+    modes = ['bilinear', 'nearest_neighbor', 'mean', 'median']
+    order = list(rng.permutation(4))
+    ncmp = 0
+    for t in range(4 if not masked else 3):
+        mode = modes[int(order[t])]
+        large = bool(t % 2)
+        if masked and mode in ('mean', 'median'):
+            large = False                       # (MaskedArray element access is slow)
+        sma = float(rng.uniform(23.0, 0.33 * n_)) if large else float(rng.uniform(5.0, 10.0))
+        astep = float(rng.choice([0.1, 0.1, 0.2]))
+        init = gen.draw_init(rng, spec, sma0=sma)
+        case.params['runs'].append(dict(mode=mode, sma=round(sma, 3), astep=astep,
+                                        init={k: round(v, 4) for k, v in init.items()}))
+        dig.append(core.digest([mode, sma, astep, init]))
+        mech = dict(integrmode=mode, image_repr=kind, sma='large' if large else 'small')
+
+        # A. EllipseSample at the true geometry: representation must not matter
+        def sample_of(image):
+            s_ = EllipseSample(image, sma, x0=spec['x0'], y0=spec['y0'], astep=astep, eps=spec['eps'],
+                               position_angle=spec['pa'], integrmode=mode)
+            s_.update()
+            return s_
+        ok, sv = _lib(case, dict(mech, op='EllipseSample.update'), sample_of, lib_img)
+        sb = sample_of(img)
+        if ok:
+            ncmp += 1
+            vv, vb = np.asarray(sv.values, float), np.asarray(sb.values, float)
+            case.check(vv.shape == vb.shape and sv.total_points == sb.total_points
+                       and sv.actual_points == sb.actual_points, 'repr_sample_points', mech,
+                       obs=[list(vv.shape), sv.total_points, sv.actual_points],
+                       exp=[list(vb.shape), sb.total_points, sb.actual_points])
+            if vv.shape == vb.shape:
+                case.close(vv[:2], vb[:2], 'repr_sample_path', mech=mech)
+                if exact:
+                    case.close(vv[2], vb[2], 'repr_sample_values', mech=mech)
+                    case.close([sv.mean, sv.gradient, sv.gradient_error, sv.sector_area],
+                               [sb.mean, sb.gradient, sb.gradient_error, sb.sector_area], 'repr_sample_stats',
+                               mech=mech)
+                else:
+                    case.close(vv[2], vb[2], 'repr_sample_values', rtol=5e-6, mech=mech)
+                    case.close(sv.mean, sb.mean, 'repr_sample_stats', rtol=5e-6, mech=mech)
+                    case.dev('float32_gradient_rel_dev', abs(sv.gradient / sb.gradient - 1.0))
+            # B. magnitude: a power of two scales every value exactly, a decimal factor to rounding
+            if not masked and kind not in gen.INT_PEAK:
+                ss = sample_of(img * mag[1])
+                vs = np.asarray(ss.values, float)
+                rt = 0.0 if mag[0] == 'pow2' else 1e-12
+                okshape = vs.shape == vb.shape
+                case.check(okshape, 'magnitude_sample_points', dict(mech, magnitude=mag[0]))
+                if okshape:
+                    case.close(vs[2], vb[2] * mag[1], 'magnitude_sample_values_scale', rtol=rt,
+                               mech=dict(mech, magnitude=mag[0]))
+                    case.close([ss.mean, ss.gradient], [sb.mean * mag[1], sb.gradient * mag[1]],
+                               'magnitude_sample_stats_scale', rtol=rt if rt else 0.0,
+                               mech=dict(mech, magnitude=mag[0]))
+                    if sb.gradient_relative_error is not None and ss.gradient_relative_error is not None:
+                        case.close(ss.gradient_relative_error, sb.gradient_relative_error,
+                                   'magnitude_relative_error_invariant', rtol=1e-9, mech=dict(mech, magnitude=mag[0]))
+
+        # C. fit_isophote from a perturbed start
+        def fit_of(image):
+            g_ = EllipseGeometry(init['x0'], init['y0'], init['sma'], init['eps'], init['pa'])
+            return Ellipse(image, g_).fit_isophote(sma, step=astep, integrmode=mode)
+        if masked and mode != 'bilinear' and large:
+            continue
+        ok, iv = _lib(case, dict(mech, op='fit_isophote'), fit_of, lib_img)
+        ib = fit_of(img)
+        if ok:
+            ncmp += 1
+            tv, tb = _iso_tuple(iv), _iso_tuple(ib)
+            if exact:
+                case.close(tv, tb, 'repr_fit_isophote', mech=mech, names='x0 y0 eps pa intens grad stop niter ndata nflag')
+            else:
+                # float32 pixels: float32 sample arithmetic; iteration counts may differ at the noise-free
+                # convergence threshold -> geometry agrees to the fit accuracy only
+                same_path = tv[6:8] == tb[6:8]
+                case.note('float32_fit_same_iterations' if same_path else 'float32_fit_other_iterations', 1)
+                if iv.stop_code == 0 and ib.stop_code == 0:
+                    case.dev('float32_fit_centre_dev', max(abs(tv[0] - tb[0]), abs(tv[1] - tb[1])))
+                    case.dev('float32_fit_eps_dev', abs(tv[2] - tb[2]))
+                    case.dev('float32_fit_intens_rel_dev', abs(tv[4] / tb[4] - 1.0))
+                    case.check(max(abs(tv[0] - tb[0]), abs(tv[1] - tb[1])) <= MAG_CEN and abs(tv[2] - tb[2]) <= MAG_EPS
+                               and abs(tv[4] / tb[4] - 1.0) <= 1e-5, 'repr_fit_isophote', mech, obs=tv, exp=tb)
+            # D. magnitude for the fit (floats only): geometry unchanged, intensity scales
+            if not masked and kind not in gen.INT_PEAK and t < 2:
+                im = fit_of(img * mag[1])
+                tm = _iso_tuple(im)
+                mm_ = dict(mech, magnitude=mag[0])
+                big = float(np.max(img)) * mag[1] >= BIG_VALUES
+                if big:
+                    mm_['big_values'] = True
+                case.note('magnitude_fits_big_values' if big else 'magnitude_fits', 1)
+                if tm[6:8] == tb[6:8]:
+                    case.note('magnitude_fit_same_iterations', 1)
+                if im.stop_code == 0 and ib.stop_code == 0:
+                  if not big:
+                    case.dev('magnitude_fit_centre_dev', max(abs(tm[0] - tb[0]), abs(tm[1] - tb[1])))
+                    case.dev('magnitude_fit_eps_dev', abs(tm[2] - tb[2]))
+                    case.dev('magnitude_fit_pa_dev', float(ref.pa_diff(tm[3], tb[3])))
+                    case.dev('magnitude_fit_intens_rel_dev', abs(tm[4] / (tb[4] * mag[1]) - 1.0))
+                  case.check(max(abs(tm[0] - tb[0]), abs(tm[1] - tb[1])) <= MAG_CEN and abs(tm[2] - tb[2]) <= MAG_EPS
+                               and abs(tm[4] / (tb[4] * mag[1]) - 1.0) <= MAG_INT, 'magnitude_fit_isophote', mm_,
+                               obs=tm, exp=tb, factor=mag[1])
+                else:
+                    case.check(im.stop_code == ib.stop_code, 'magnitude_fit_stop_code', mm_, obs=im.stop_code,
+                               exp=ib.stop_code, factor=mag[1])
+    # A'. every case: all four integrmodes at a large sma on an integer-dtype copy holding bright counts
+    #     (sample only: cheap), so that each run compares uint16/int16/int32 with float64 for the area modes
+    ik = ['uint16', 'int16', 'int32'][int(rng.integers(0, 3))]
+    lib2, mon2, _ = gen.apply_repr(img0, ik, spec, float(rng.uniform(0.6, 1.0)))
+    snap2 = _crc(lib2)
+    case.note('axis_image_repr_' + ik, 1)
+    for mode in modes:
+        sma = float(rng.uniform(23.0, 0.33 * n_))
+        mech = dict(integrmode=mode, image_repr=ik, sma='large')
+
+        def sample2(image):
+            s_ = EllipseSample(image, sma, x0=spec['x0'], y0=spec['y0'], astep=0.1, eps=spec['eps'],
+                               position_angle=spec['pa'], integrmode=mode)
+            s_.update()
+            return s_
+        ok, sv = _lib(case, dict(mech, op='EllipseSample.update'), sample2, lib2)
+        if ok:
+            sb = sample2(mon2)
+            vv, vb = np.asarray(sv.values, float), np.asarray(sb.values, float)
+            case.check(vv.shape == vb.shape, 'repr_sample_points', mech, obs=list(vv.shape), exp=list(vb.shape))
+            if vv.shape == vb.shape:
+                case.close(vv, vb, 'repr_sample_values', mech=mech)
+                case.close([sv.mean, sv.gradient, sv.gradient_error], [sb.mean, sb.gradient, sb.gradient_error],
+                           'repr_sample_stats', mech=mech)
+            ncmp += 1
+    case.check(_crc(lib2) == snap2, 'image_unchanged', dict(op='repr', image_repr=ik))
+    # E. masked pixels ON the path (bilinear): the surviving samples are a subset of the unmasked run
+    if kind == 'masked_far':
+        sma = float(rng.uniform(8.0, 20.0))
+        sb = EllipseSample(img, sma, x0=spec['x0'], y0=spec['y0'], eps=spec['eps'], position_angle=spec['pa'])
+        sb.update()
+        xs, ys = ref.from_polar_ref(np.asarray(sb.values[1]), np.asarray(sb.values[0]), spec['x0'], spec['y0'], spec['pa'])
+        mk = np.zeros(img.shape, bool)
+        for q in rng.choice(len(xs), size=3, replace=False):
+            mk[int(ys[q]), int(xs[q])] = True
+        sm = EllipseSample(np.ma.MaskedArray(img.copy(), mask=mk), sma, x0=spec['x0'], y0=spec['y0'], eps=spec['eps'],
+                           position_angle=spec['pa'])
+        okm, _ = _lib(case, dict(op='EllipseSample.extract', image_repr='masked_on_path'), sm.extract)
+        if okm:
+            am, vm = np.asarray(sm.values[0], float), np.asarray(sm.values[2], float)
+            ab, vb_ = np.asarray(sb.values[0], float), np.asarray(sb.values[2], float)
+            idx = np.searchsorted(ab, am)
+            idx = np.clip(idx, 0, len(ab) - 1)
+            sub = bool(np.all(ab[idx] == am) and np.all(vb_[idx] == vm))
+            case.check(sub and len(am) < len(ab) and sm.total_points == sb.total_points
+                       and sm.actual_points == len(am), 'masked_samples_are_subset',
+                       dict(image_repr='masked_on_path'), n_masked=len(am), n_plain=len(ab))
+            # every dropped sample touches a masked pixel
+            drop = np.setdiff1d(np.arange(len(ab)), idx)
+            i0, j0 = xs[drop].astype(int), ys[drop].astype(int)
+            touch = mk[j0, i0] | mk[j0 + 1, i0] | mk[j0, i0 + 1] | mk[j0 + 1, i0 + 1]
+            case.check(bool(np.all(touch)), 'masked_only_touching_samples_dropped', dict(image_repr='masked_on_path'),
+                       dropped=len(drop))
+            ncmp += 1
+    case.check(_crc(lib_img) == snap, 'image_unchanged', dict(op='repr', image_repr=kind))
+    case.digest = core.digest(dig)
+    case.note('repr_comparisons', ncmp)
+    case.nontrivial = ncmp >= 4
+
+
+# ================================================================================================
+# class: degenerate / out-of-contract inputs (documented behaviour judged, silent behaviour counted)
+# ================================================================================================
+def _outcome(case, tag, fn, *a, **k):
+    """Run library code on an input whose behaviour the documentation does not define: count the outcome."""
+    ok, res = case.lib(fn, *a, **k)
+    if not ok:
+        if core.exc_location(res) is None and not isinstance(res, (ValueError, TypeError, IndexError)):
+            raise res
+        case.note(f'degenerate_{tag}_raised_{type(res).__name__}', 1)
+        return None
+    return res
+
+
+def _basic_list_checks(case, isolist, mech):
+    smas = np.array([iso.sma for iso in isolist], float)
+    case.check(bool(np.all(np.diff(smas) > 0)), 'sma_strictly_increasing', mech, sma=smas)
+    codes = [int(iso.stop_code) for iso in isolist]
+    case.check(all(c in (0, 1, 2, 3, 4, 5) for c in codes), 'stop_code_documented', mech, codes=codes)
+
+
+def _degenerate_case(case):
+    import warnings as _w
+    from astropy.utils.exceptions import AstropyUserWarning
+    from photutils.isophote import Ellipse, EllipseGeometry, build_ellipse_model
+    from photutils.isophote.isophote import IsophoteList
+    rng = case.rng
+    sub = ['constant', 'maxsma_lt_minsma', 'sma0_outside', 'centre_near_edge', 'all_masked', 'everything_fixed',
+           'empty_model'][int(rng.integers(0, 7))]
+    spec = gen.draw_truth(rng, 'degenerate', case.tier, small=True)
+    spec['axes'] = dict(spec['axes'], plain=True)
+    ny, nx = spec['shape']
+    case.params = dict(sub=sub, shape=spec['shape'])
+    case.note('degenerate_' + sub, 1)
+    mech = dict(degenerate=sub)
+    img = gen.image_of(spec)
+    if sub == 'constant':
+        c = float(rng.choice([0.0, 1.0, -3.5, 1.0e5]))
+        img = np.full((ny, nx), c)
+        case.params['value'] = c
+    if sub == 'centre_near_edge':
+        d = float(rng.uniform(3.0, 9.0))
+        side = int(rng.integers(0, 4))
+        spec['x0'], spec['y0'] = [(d, spec['y0']), (nx - 1 - d, spec['y0']), (spec['x0'], d),
+                                  (spec['x0'], ny - 1 - d)][side]
+        img = gen.image_of(spec)
+        case.params.update(x0=spec['x0'], y0=spec['y0'])
+    lib_img = img
+    if sub == 'all_masked':
+        lib_img = np.ma.MaskedArray(img.copy(), mask=np.ones(img.shape, bool))
+    snap = _crc(lib_img)
+    init = gen.draw_init(rng, spec)
+    kw = dict(maxsma=float(rng.uniform(20.0, 30.0)), minsma=float(rng.choice([0.0, 2.0])))
+    if sub == 'maxsma_lt_minsma':
+        kw.update(minsma=float(init['sma'] * 1.2), maxsma=float(init['sma'] * 0.7))
+    elif sub == 'sma0_outside':
+        if rng.random() < 0.5:
+            kw.update(minsma=float(init['sma'] * 1.5), maxsma=float(init['sma'] * 3.0))
+        else:
+            kw.update(minsma=1.0, maxsma=float(init['sma'] * 0.6))
+    elif sub == 'everything_fixed':
+        kw.update(fix_center=True, fix_pa=True, fix_eps=True)
+    case.params.update(init={k: round(v, 3) for k, v in init.items()}, fit_kw=kw)
+    case.digest = core.arr_digest(img, np.array(list(init.values()))) + core.digest([sub, kw])
+    geom = EllipseGeometry(init['x0'], init['y0'], init['sma'], init['eps'], init['pa'])
+    if sub == 'empty_model':
+        # code raises ValueError('isolist must not be empty'); the docstring is silent: counted
+        _outcome(case, sub, build_ellipse_model, (ny, nx), IsophoteList([]))
+        case.check(True, 'degenerate_exercised', mech)
+        case.nontrivial = True
+        return
+    with _w.catch_warnings(record=True) as wl:
+        _w.simplefilter('always')
+        if sub in ('centre_near_edge', 'everything_fixed'):
+            ok, res = _lib(case, dict(mech, op='fit_image'), Ellipse(lib_img, geom).fit_image, **kw)
+            res = res if ok else None
+        else:
+            res = _outcome(case, sub, Ellipse(lib_img, geom).fit_image, **kw)
+    case.check(_crc(lib_img) == snap, 'image_unchanged', dict(mech, op='fit_image'))
+    if res is not None:
+        case.note(f'degenerate_{sub}_returned_{"empty" if len(res) == 0 else "list"}', 1)
+        _basic_list_checks(case, res, mech)
+        if sub == 'everything_fixed':
+            # explicit in fit_image: warning "Everything is fixed. Fit not possible." and an empty list
+            case.check(len(res) == 0 and any(issubclass(w.category, AstropyUserWarning) for w in wl),
+                       'everything_fixed_empty_with_warning', mech, n=len(res))
+        if sub == 'centre_near_edge' and len(res):
+            smas = np.array([iso.sma for iso in res if iso.sma > 0])
+            case.check(bool(np.all(smas <= kw['maxsma']) and np.all(smas >= kw['minsma'])), 'sma_within_bounds',
+                       dict(mech, bound='both'), smas=smas)
+            case.check(all(np.isfinite([iso.x0, iso.y0, iso.eps, iso.pa]).all() for iso in res),
+                       'isolist_values_finite', mech)
+    case.nontrivial = True
+
+
 def run_case(case):
     if case.cls == 'polar':
         _polar_case(case)
+    elif case.cls == 'repr':
+        _repr_case(case)
+    elif case.cls == 'degenerate':
+        _degenerate_case(case)
     elif case.cls == 'sample':
         _sample_case(case)
     elif case.cls == 'single':
